@@ -72,11 +72,9 @@ func (p *Parser) rune() rune {
 	bquotes := 0
 retry:
 	if p.bsp >= uint(len(p.bs)) && p.fill() == 0 {
-		if len(p.bs) == 0 {
-			// Necessary for the last position to be correct.
-			// TODO: this is not exactly intuitive; figure out a better way.
-			p.bsp = 1
-		}
+		// One past the end of the buffer plus the width of runeEOF, so that
+		// the last position is right however the end of the input was found.
+		p.bsp = uint(len(p.bs)) + 1
 		p.r = runeEOF
 		p.w = 1
 		return p.r
